@@ -22,9 +22,14 @@ def hint_kind(h):
         return "none"
     k = "%d-given" % (3 - list(h).count(None))
     return k + ("+index0" if 0 in h else "")
-RULE = ("periodic structures with 1-3 planted rigid copies (per-atom perturbation <= atol/8) of 11 patterns (1-5 atoms; "
+RULE = ("ATOMS ARE ALWAYS STORED INSIDE THE CELL (fractional coordinates in [0,1)); observation, outside the quantifier: atoms "
+        "stored outside the cell are silently mishandled (matches lost; load_lmpdat does not wrap). "
+        "periodic structures with 1-3 planted rigid copies (per-atom perturbation up to atol/8 ... 0.35 atol un-hinted; "
+        "with hints atol/8 or atol/40 according to the lever ratios of the triple; hints spelled int / negative / numpy) of 11 patterns (1-5 atoms; "
         "asymmetric, symmetric, planar, collinear, chiral) in orthorhombic / triclinic(+/- tilt) / arbitrarily rotated "
-        "cells, 20 % of them with smallest width only 3-30 % above diameter+2*atol; poses random / identity / 90 / 180 deg / "
+        "cells, 20 % of them with smallest width only 0.1-30 % above diameter+2*atol; streams: occurrences sharing atoms "
+        "(expectation = independent enumeration), exact copies with atol = 1e-6 / 1e-5 (tolerances below the ~1e-8 A noise of "
+        "the arccos-based rotation are not demanded); poses random / identity / 90 / 180 deg / "
         "antiparallel to the search axis; origins random or on the boundary-hugging grid {0,.01,.5,.99,.999}^3 "
         "(thorough: the complete grid x 5 poses x 11 patterns x 4 cell kinds); decoys: mirror images (chiral patterns "
         "only; a mirror image of an achiral pattern is planted as an occurrence), near misses with one distance off by "
@@ -87,11 +92,15 @@ def run_plain(s, p, atol, hints=(None, None, None), seed=0):
 
 
 def run_real(inp):
+    import numpy as np
     s = fl.mk_structure(inp["elems"], inp["pos"], inp["cell"])
     p = g.mk_pattern(inp)
+    hints = tuple(inp["hints"])
+    if inp.get("hint_spelling") == "numpy":
+        hints = tuple(None if h is None else np.int64(h) for h in hints)
     if inp.get("plain"):
-        return run_plain(s, p, inp["atol"], hints=tuple(inp["hints"]), seed=inp.get("seed", 0))
-    return fl.run_find(s, p, inp["atol"], hints=tuple(inp["hints"]), seed=inp.get("seed", 0))
+        return run_plain(s, p, inp["atol"], hints=hints, seed=inp.get("seed", 0))
+    return fl.run_find(s, p, inp["atol"], hints=hints, seed=inp.get("seed", 0))
 
 
 def one(inp):
@@ -312,7 +321,7 @@ def distorted(ctx, rng, n, pairs, n_tie):
 
 def tie(ctx, pairs):
     """pairs: [(inp, case, res)] -> model run, comparison of the views"""
-    ops = [fl.find_op(case, inp["atol"], tuple(inp["hints"]), res["hook"]) for inp, case, res in pairs]
+    ops = [g.model_op(case, inp["atol"], tuple(inp["hints"]), res["hook"]) for inp, case, res in pairs]
     models = ctx.lean.run(ops) if ops else []
     for (inp, case, res), op, m in zip(pairs, ops, models):
         iv, mv = fl.impl_view(res), fl.model_view(m)
@@ -332,20 +341,37 @@ def run(ctx, oracle_only=False, scale=1):
     ctx.rule = RULE
     rng = ctx.rng
     pairs = []
-    n_rand = ctx.n(1000, 8000) * scale
+    n_rand = ctx.n(850, 8000) * scale
     n_tie = 0 if oracle_only else ctx.n(220, 700)
     made = 0
     while made < n_rand:
         # the argument space: tolerance (copies / decoys scale with it), explicit hints, plain call
         atol = rng.choice(ATOLS)
         hinted = rng.random() < 0.35
-        case = g.random_case(rng, atol=atol, perturb_div=40.0 if hinted else 8.0)
+        pname = rng.choice(list(fl.PATTERNS))
+        hints, spelling = (None, None, None), "int"
+        # un-hinted copies are displaced by up to atol/8 ... 0.35 atol per atom; hinted ones as far as the conditioning of
+        # the hint triple allows (see harness/props/c03.py: atol/8 for lever ratios ro <= 3, ra <= 2.5, else atol/40)
+        pdiv = rng.choice([8.0, 8.0, 8.0, 4.0, 2.86])
+        if hinted:
+            ppos = [[float(x) for x in q] for q in fl.pattern_json(pname)["pos"]]
+            hints = g.pick_hints(rng, ppos)
+            ra, ro, _ = g.hint_levers(ppos, hints)
+            if ro > 15 or ra > 6:
+                hints = (None, None, None)
+            else:
+                pdiv = 8.0 if (ro <= 3 and ra <= 2.5) else 40.0
+                hints, spelling = g.spell_hints(rng, hints, len(ppos))
+        case = g.random_case(rng, atol=atol, pname=pname, perturb_div=pdiv)
         if case is None:
             ctx.count("generator:rejected")
             continue
         made += 1
-        hints = g.pick_hints(rng, case["pattern"]["pos"]) if hinted else (None, None, None)
-        inp = inp_of(case, atol=atol, hints=hints, seed=rng.randrange(1 << 30))
+        inp = inp_of(case, atol=atol, hints=[None if h is None else int(h) for h in hints], seed=rng.randrange(1 << 30))
+        if spelling == "numpy":
+            inp["hint_spelling"] = "numpy"
+        ctx.count("perturbation:atol/%g" % pdiv)
+        ctx.count("hint-spelling:" + spelling)
         res, bad = one(inp)
         ctx.case(inp, nontrivial=nontrivial(case))
         for t in tags_of(case):
@@ -387,12 +413,52 @@ def run(ctx, oracle_only=False, scale=1):
                      tags=tags_of(case) + ["listing:" + case["info"]["listing"]])
         elif len(pairs) < n_tie + 10 and "ok" in res and rng.random() < 0.5:
             pairs.append((inp, case, res))
+    # occurrences that SHARE atoms (dense structures, no separation between copies); expectation = independent enumeration
+    made = 0
+    while made < ctx.n(20, 200) * scale:
+        atol = rng.choice([0.05, 0.05, 0.01])
+        case = g.shared_atom_case(rng, atol=atol)
+        if case is None:
+            ctx.count("generator:rejected")
+            continue
+        made += 1
+        inp = inp_of(case, atol=atol, seed=rng.randrange(1 << 30))
+        res, bad = one(inp)
+        ctx.case(inp, nontrivial=True)
+        ctx.count("stream:shared-atoms")
+        if bad:
+            ctx.fail(bad, inp, observed=res.get("ok", res.get("err")), required="reported key set == the independently "
+                     "enumerated occurrence set, each group once", tags=tags_of(case))
+        elif len(pairs) < n_tie + 20 and "ok" in res and rng.random() < 0.3:
+            pairs.append((inp, case, res))
+    # very small tolerances with EXACT copies (any pose / cell, also across the boundary): atol = 1e-6 and 1e-5.
+    # Not below: the code builds its rotation from arccos(v1.v2), which turns one ulp of rounding in the coordinates
+    # into ~1.5e-8 rad, i.e. ~1e-8 A of misplacement — an exact copy with coordinates near 0 is then rejected at
+    # atol = 1e-9 (observed; with atol = 0 copies are accepted only through np.allclose's rtol = 1e-5).  Tolerances
+    # below the arithmetic's own noise are not demanded.
+    made = 0
+    while made < ctx.n(12, 100) * scale:
+        case = g.exact_case(rng, False)
+        if case is None:
+            ctx.count("generator:rejected")
+            continue
+        made += 1
+        atol = [1e-6, 1e-5][made % 2]
+        inp = inp_of(case, atol=atol, seed=rng.randrange(1 << 30))
+        res, bad = one(inp)
+        ctx.case(inp, nontrivial=True)
+        ctx.count("stream:exact-copies:atol=%g" % atol)
+        if bad:
+            ctx.fail(bad, inp, observed=res.get("ok", res.get("err")), required="reported key set == planted key set, each once",
+                     tags=tags_of(case) + ["atol:%g" % atol])
+        elif len(pairs) < n_tie + 30 and "ok" in res and rng.random() < 0.3:
+            pairs.append((inp, case, res))
     sequences(ctx, rng, ctx.n(24, 200) * scale)
     distorted(ctx, rng, ctx.n(60, 600) * scale, pairs, n_tie)
     # boundary grid: complete in the thorough tier, a random sample in the quick tier
     tasks = grid_tasks()
     if ctx.tier == "quick" and scale == 1:
-        tasks = rng.sample(tasks, 1500)
+        tasks = rng.sample(tasks, 1300)
     elif ctx.tier == "quick":
         tasks = rng.sample(tasks, 4000)
     else:
